@@ -436,7 +436,7 @@ class Fuzz(Part):
 class C20(Prop):
     id = 'C20'
     registered = True
-    technique = ('exhaustive small-scope enumeration + Hypothesis random graphs + (thorough) coverage-guided atheris campaigns '
+    technique = ('exhaustive small-scope enumeration + Hypothesis random graphs + model-based call histories + (thorough) coverage-guided atheris campaigns '
                  'vs. reachability-closure oracle')
     level_text = 'Every digraph on <=4 nodes (with self-loops) is enumerated in several insertion orders / node kinds / call patterns and compared with an independent reference partition; Hypothesis graphs of 5..14 nodes extend this beyond the bound; generated call histories (incremental description, caller-owned containers, repeated enumeration) are compared with a model after every enumeration. Exhaustive inside the bound, sampled beyond.'
     level_note = 'Trusts the Warshall-closure reference implementation in ztv/props/c20.py and CPython set/dict semantics.'
